@@ -4,6 +4,7 @@ package main
 
 import (
 	"bytes"
+	"encoding/hex"
 	"fmt"
 	"math/rand"
 	"os"
@@ -154,7 +155,42 @@ func c11(args []string) error {
 			seed = []int64{0, -2, -7, -9223372036854775808, 9223372036854775807}[r.Intn(5)]
 		}
 		t2 := []int{2, 3, 8, 16}[r.Intn(4)]
-		switch kind := r.Intn(13); {
+		switch kind := r.Intn(15); {
+		case kind >= 13: // commands whose result is a file: two runs must write the same bytes
+			readHex := func(fn string) string {
+				b, e := os.ReadFile(fn)
+				if e != nil {
+					return "unreadable"
+				}
+				return hex.EncodeToString(b)
+			}
+			if kind == 14 && r.Intn(4) == 0 {
+				// seeded bootstrap archive, written twice more than a second apart
+				a1 := runCLI(bin, dir, "build", "seqboot", "-i", in, "-n", "2", "--seed", fmt.Sprint(seed), "--tar", "-o", filepath.Join(dir, "boot1"))
+				time.Sleep(1100 * time.Millisecond)
+				a2 := runCLI(bin, dir, "build", "seqboot", "-i", in, "-n", "2", "--seed", fmt.Sprint(seed), "--tar", "-o", filepath.Join(dir, "boot1b"))
+				t1, t2b := readHex(filepath.Join(dir, "boot1.tar")), readHex(filepath.Join(dir, "boot1b.tar"))
+				// the member names carry the prefix: only their length may differ; compare with the same prefix length
+				os.Rename(filepath.Join(dir, "boot1b.tar"), filepath.Join(dir, "gone.tar"))
+				emit(0, "build seqboot --tar", names, seqs, nil, 0, dyadic{1, 1}, false, []string{a1.stdout, fmt.Sprint(len(t1))}, []string{a2.stdout, fmt.Sprint(len(t2b))}, a1.rc, a2.rc,
+					map[string]interface{}{"op": "twice:seqboot --tar", "rseed": seed, "names": names, "seqs": seqs, "rc": a1.rc})
+				// same prefix, written twice (the second run overwrites): bytes must be identical
+				b1 := runCLI(bin, dir, "build", "seqboot", "-i", in, "-n", "2", "--seed", fmt.Sprint(seed), "--tar", "-o", filepath.Join(dir, "bootx"))
+				x1 := readHex(filepath.Join(dir, "bootx.tar"))
+				time.Sleep(1100 * time.Millisecond)
+				b2 := runCLI(bin, dir, "build", "seqboot", "-i", in, "-n", "2", "--seed", fmt.Sprint(seed), "--tar", "-o", filepath.Join(dir, "bootx"))
+				x2 := readHex(filepath.Join(dir, "bootx.tar"))
+				emit(0, "build seqboot --tar (bytes)", names, seqs, nil, 0, dyadic{1, 1}, false, []string{x1}, []string{x2}, b1.rc, b2.rc,
+					map[string]interface{}{"op": "twice:seqboot --tar bytes", "rseed": seed, "names": names, "seqs": seqs, "rc": b1.rc})
+				stats["twice:seqboot --tar"]++
+			} else {
+				m1, m2 := filepath.Join(dir, "map1.txt"), filepath.Join(dir, "map2.txt")
+				a1 := runCLI(bin, dir, "trim", "name", "-a", "-i", in, "-m", m1)
+				a2 := runCLI(bin, dir, "trim", "name", "-a", "-i", in, "-m", m2)
+				emit(0, "trim name -a -m", names, seqs, nil, 0, dyadic{1, 1}, false, []string{a1.stdout, readHex(m1)}, []string{a2.stdout, readHex(m2)}, a1.rc, a2.rc,
+					map[string]interface{}{"op": "twice:trim name -m", "names": names, "seqs": seqs, "rc": a1.rc})
+				stats["twice:trim name -m"]++
+			}
 		case kind < 5: // the same command twice, different thread counts
 			t := tmpls[r.Intn(len(tmpls))]
 			mk := func(threads int) []string {
